@@ -279,4 +279,31 @@ def ofNoise (brightness g2 q ind r transmittance : ℚ) (g2dist : Bool) : Params
   { beta := brightness, g2 := g2, q := q, eta := 1 - (1 - transmittance), ind := ind, r := r,
     dm := g2dist }
 
+/-! ### vocabulary of the property statements (test functions, generating functions) -/
+
+/-- a multiplicative test function on a mode: `∏` over its photons of a weight of the tag -/
+def tagProd (h : Tag → ℚ) (m : Mode) : ℚ := (m.map h).prod
+
+/-- a product test function on a state: `∏ᵢ fs (k+i) (mode i)` -/
+def W (fs : ℕ → Mode → ℚ) : ℕ → State → ℚ
+  | _, [] => 1
+  | k, m :: s => fs k m * W fs (k + 1) s
+
+/-- the product of the per-mode expectations of the same test functions -/
+def prodFrom (fs : ℕ → Mode → ℚ) : ℕ → List (Dist Mode) → ℚ
+  | _, [] => 1
+  | k, d :: ds => E (fs k) d * prodFrom fs (k + 1) ds
+
+/-- generating polynomial of the number of photons one requested photon yields -/
+def poly (P : Params) (y : ℚ) : ℚ := p0 P + pi1 P * y + pi2 P * y ^ 2
+
+/-- generating function of the per-mode photon counts of independent requested photons:
+`∏ᵢ poly(x (k+i)) ^ nᵢ` -/
+def gfFrom (P : Params) (x : ℕ → ℚ) : ℕ → List ℕ → ℚ
+  | _, [] => 1
+  | k, n :: ns => poly P (x k) ^ n * gfFrom P x (k + 1) ns
+
+/-- two photons of the mode carry the same tag -/
+def hasDup (m : Mode) : Bool := !decide m.Nodup
+
 end PM.C06
